@@ -71,7 +71,9 @@ def case_grid(case):
     levels = [0, 3]
     rng = core.case_rng(seed, [nx, ny])
     q = rng.random((ny, nx))
-    mp = (1 * dx, 2 * dy) if fp else (0.0, 0.0)
+    # tower: interior cell, or on the western / southern domain edge (exactly one coordinate zero), or the corner
+    ti, tj = [(1, 2), (0, 2), (1, 0), (0, 0)][(nx + 2 * ny) % 4]
+    mp = (ti * dx, tj * dy) if fp else (0.0, 0.0)
     tol = 1e-9
     cnt = [0]
 
@@ -96,7 +98,7 @@ def case_grid(case):
         return {"v": v, "nt": True, "n": cnt[0]}
     # independent registration anchor for the reference itself: with every mode kept, the flux at the lowest node IS the
     # (padded) source in dispersion mode, and the unit impulse at the tower cell in footprint mode
-    anchor = qp if not fp else sl.impulse(nye, nxe, py + 2, px + 1)
+    anchor = qp if not fp else sl.impulse(nye, nxe, py + tj, px + ti)
     ea = float(np.abs(full[1, 0] - anchor).max() / max(np.abs(anchor).max(), 1e-300))
     if not ea <= 1e-9:
         v.append({"sub": "anchor", "sig": "anchor/%s" % ("footprint" if fp else "dispersion"),
